@@ -350,7 +350,7 @@ def c02(ctx, rep):
     memo_uses(m, rep, "C02")
     # deanonymize must not store a full entry through the direct view keyed by anonymized bits
     fp = m.A.paths(m.f_dean)
-    for path in fp.paths:
+    for path in [x for x in fp.paths if x.feasible()]:
         for e, ls in path.stores():
             if e.kind == "store_sub" and m.cacheref(e.a) == "direct":
                 rep.fail("C02.direction", m.f_dean.name, "deanonymize writes the direct view: %r" % e, where(m.f_dean, e.node))
@@ -359,7 +359,7 @@ def c02(ctx, rep):
             if lk and lk[0] == "direct":
                 rep.fail("C02.direction", m.f_dean.name, "deanonymize reads the memo through the direct (forward) view: %s" % show(e.a), where(m.f_dean, e.node), key="C02.direction|deanonymize-direct-read")
     fp = m.A.paths(m.f_anon)
-    for path in fp.paths:
+    for path in [x for x in fp.paths if x.feasible()]:
         for e, ls in path.calls():
             lk = m.lookup(e.a)
             if lk and lk[0] == "inverse":
@@ -395,7 +395,7 @@ def c03(ctx, rep):
     for f in m.p.all_functions():
         for cs in m.G.by_owner.get(f.qualname, []):
             for callee in cs.funcs():
-                if callee in (m.f_fwd, m.f_inv) and f not in (m.f_fwd, m.f_inv, m.f_anon, m.f_dean):
+                if callee in (m.f_fwd, m.f_inv) and f not in (m.f_fwd, m.f_inv, m.f_anon, m.f_dean) and f.qualname not in ctx.helpers:
                     rep.fail("C03.stratification", f.qualname, "the recursive walk is called from outside anonymize/deanonymize: %s" % show(cs.term), cs.where)
     # file level: one FileAnonymizer per anonymize_files, before the loop
     _one_anonymizer_per_run(ctx, m, rep, "C03")
@@ -405,7 +405,7 @@ def c03(ctx, rep):
     m.check_split(rep, "C03")
     m.check_split(rep, "C03.undo", inverse=True)
     for f, bad in ((m.f_dean, "direct"), (m.f_inv, "direct"), (m.f_anon, "inverse"), (m.f_fwd, "inverse")):
-        for path in m.A.paths(f).paths:
+        for path in [x for x in m.A.paths(f).paths if x.feasible()]:
             for e, ls in path.calls():
                 lk = m.lookup(e.a)
                 if lk and lk[0] == bad:
